@@ -205,13 +205,13 @@ example : (runMsg concrete 100 (runMsgs concrete 100 (St.fresh 2 [1]) witnessEnv
 /-- T11.3  Sent halves survive.  When `cmd_epr` has handed the second half to the peer (`send_epr_half`
 removed its handle from qubitList), that token is foreign to this QNodeOS from then on: whatever the creator
 does afterwards — any messages, in particular its StopApp — no operation it issues touches that token. -/
-theorem sent_halves_survive {c : CQ} (h : Inv F ext c) (v : Option Int) (env : Env) {rest : List Bool}
+theorem sent_halves_survive {c : CQ} (h : Inv F ext c) (bad : Bool) (v : Option Int) (env : Env) {rest : List Bool}
     (hcap : c.node.held.length + 1 < c.node.cap) (hs : env.sends = true :: rest) :
-    TOp.send (c.node.next + 1) true ∈ (c.eprCreate true v env).ops ∧
-    (c.node.next + 1) ∉ vals (c.eprCreate true v env).st.qlist ∧
-    ∀ (fuel : Nat) (s : St CQ), s.q = (c.eprCreate true v env).st → ∀ (env' : Env) (ms : List Msg),
+    TOp.send (c.node.next + 1) true ∈ (c.eprCreate true bad v env).ops ∧
+    (c.node.next + 1) ∉ vals (c.eprCreate true bad v env).st.qlist ∧
+    ∀ (fuel : Nat) (s : St CQ), s.q = (c.eprCreate true bad v env).st → ∀ (env' : Env) (ms : List Msg),
       ∀ op ∈ (runMsgs concrete fuel s env' ms [] []).1.ops, (c.node.next + 1) ∉ op.toks := by
-  obtain ⟨h1, h2⟩ := eprCreate_sent h v env hcap hs
+  obtain ⟨h1, h2⟩ := eprCreate_sent h bad v env hcap hs
   refine ⟨h1, (h2.foreign _ mem_cons_self).2.1, ?_⟩
   intro fuel s hsq env' ms op hop
   have := (runMsgs_inv (preserves_inv (F := (c.node.next + 1) :: F) (ext := ext)) fuel ms s env' [] []
